@@ -219,6 +219,19 @@ CLAIMED = {
              "proxies, the restated predicates (informal sentences: the reading is stated next to the predicate).",
         technique="dynamic symbolic execution of the real Python functions over z3 proxies (symx), bounded; constraint verdicts as free Booleans; counterexample replay",
         design="DESIGN.md §3 C16"),
+    "C13": dict(
+        text="Bounded solver verdict on kernels where an internal exception is an arithmetic event (a lemma set, not totality of the driver): the REAL "
+             "Scheduler.propose_operator_buffering with the memory snapshot holding NumPy fixed-width values of the element type the live "
+             "LiveRangeGraph.get_temporal_memory_usage produces, for a symbolic staging limit (0..2^33; the scheduler itself passes 1 << 32), reference "
+             "usage and time index: no OverflowError/ArithmeticError under NumPy >= 2 promotion (the package declares an unpinned numpy) and slack == "
+             "limit - usage; placement constraint functions (resize incl. align_corners / half_pixel_centers, strides, broadcast, batch, matching "
+             "shapes, transpose convolution) return a verdict - never raise - for every operator geometry with positive dimensions, so an operator "
+             "that cannot be accelerated stays on the CPU instead of ending the compilation; vela.main() turns every VelaError subclass raised "
+             "below it into a console message and a non-zero status and lets nothing escape.",
+        note="Partial: totality of reader, graph optimiser, scheduler search, allocator and writer over all models and option combinations is outside "
+             "(no bounded encoding of 'all models'). Trusted: z3, symx NumPy proxies (NEP 50 promotion, validated against the installed NumPy in every run).",
+        technique="dynamic symbolic execution of the real Python functions over z3 proxies (symx) incl. NumPy fixed-width/Python int promotion semantics, bounded; counterexample replay",
+        design="DESIGN.md §3 C13"),
 }
 
 NOT_APPLICABLE = {
@@ -226,7 +239,6 @@ NOT_APPLICABLE = {
     "C07": "the weight codec is C (mlw_encode.c); no C symbolic engine (CBMC/KLEE) in the sandbox and CrossHair realises at the extension boundary (DESIGN §5)",
     "C11": "flatbuffer (de)serialisation and graph partitioning: object graphs and byte buffers realised at the flatbuffers/NumPy boundary, nothing arithmetic to quantify over (DESIGN §5)",
     "C12": "needs the written output file and summary CSV of whole compilations; its arithmetic core (non-overlap, alignment, reported total) is decided under C05 (DESIGN §5)",
-    "C13": "totality of the whole driver over all valid models and option combinations; no bounded encoding of 'all models' through reader, optimiser, scheduler and writer (DESIGN §5)",
     "C14": "determinism across process histories depends on uuid4, hash seeds, dict/set iteration and module caches, i.e. interpreter state, not a function of encodable inputs (DESIGN §5)",
 }
 
